@@ -1609,6 +1609,45 @@ mod c10_precision {
         let (sample, _stats) = s.run_progress(6, 2).unwrap();
         assert_eq!(sample.dims(), [2, 6, 2]);
     }
+    /// C10: the sampler's scalar type T and the backend's float element type are independent parameters
+    /// (element types {f32,f64} x backends {NdArray<f32>, NdArray<f64>}); progress mode must work for all four.
+    #[test]
+    fn c10_hmc_run_progress_scalar_f64_on_f32_backend() {
+        type B = Autodiff<NdArray<f32>>;
+        let target = DiffableGaussian2D::new([0.0f64, 1.0], [[4.0, 2.0], [2.0, 3.0]]);
+        let mk = || HMC::<f64, B, _>::new(target.clone(), vec![vec![0.0f64, 0.0], vec![1.0, -1.0]], 0.1, 3).set_seed(1);
+        let plain = mk().run(6, 2);
+        let (sample, _stats) = mk().run_progress(6, 2).unwrap();
+        assert_eq!(sample.dims(), [2, 6, 2]);
+        assert_eq!(sample.to_data().to_vec::<f32>().unwrap(), plain.to_data().to_vec::<f32>().unwrap());
+    }
+    #[test]
+    fn c10_hmc_run_progress_scalar_f32_on_f64_backend() {
+        type B = Autodiff<NdArray<f64>>;
+        let target = DiffableGaussian2D::new([0.0f32, 1.0], [[4.0, 2.0], [2.0, 3.0]]);
+        let mk = || HMC::<f32, B, _>::new(target.clone(), vec![vec![0.0f32, 0.0], vec![1.0, -1.0]], 0.1, 3).set_seed(1);
+        let plain = mk().run(6, 2);
+        let (sample, _stats) = mk().run_progress(6, 2).unwrap();
+        assert_eq!(sample.dims(), [2, 6, 2]);
+        assert_eq!(sample.to_data().to_vec::<f64>().unwrap(), plain.to_data().to_vec::<f64>().unwrap());
+    }
+    #[test]
+    fn c10_nuts_run_progress_mixed_scalar_and_backend_float() {
+        {
+            type B = Autodiff<NdArray<f32>>;
+            let target = DiffableGaussian2D::new([0.0f64, 1.0], [[4.0, 2.0], [2.0, 3.0]]);
+            let mut s = NUTS::<f64, B, _>::new(target, vec![vec![0.0f64, 0.0], vec![1.0, -1.0]], 0.8).set_seed(1);
+            let (sample, _stats) = s.run_progress(6, 2).unwrap();
+            assert_eq!(sample.dims(), [2, 6, 2]);
+        }
+        {
+            type B = Autodiff<NdArray<f64>>;
+            let target = DiffableGaussian2D::new([0.0f32, 1.0], [[4.0, 2.0], [2.0, 3.0]]);
+            let mut s = NUTS::<f32, B, _>::new(target, vec![vec![0.0f32, 0.0], vec![1.0, -1.0]], 0.8).set_seed(1);
+            let (sample, _stats) = s.run_progress(6, 2).unwrap();
+            assert_eq!(sample.dims(), [2, 6, 2]);
+        }
+    }
     #[test]
     fn c10_hmc_run_progress_f32_backend() {
         type B = Autodiff<NdArray<f32>>;
